@@ -70,7 +70,7 @@ class C11:
                     if (o.d["f"] & F_TITLE) and (o.d["f"] & F_MULTI) and inst.title is not None:
                         it = s.add("gettsec", handle, hx(o.d["n"]), hx(inst.title))
                         dup = [k for k, x in enumerate(o.vals) if x.title == inst.title]
-                        queries.append(("same-as", it, ig if dup[0] == idx else None, inst_chain, "gettsec"))
+                        queries.append(("same-as", it, ig if dup[0] == idx else None, inst_chain, ["gettsec"]))
                     walk(inst, h, inst_chain)
         walk(m.root, 1, [])
         if len(secs) > 40:
@@ -100,6 +100,8 @@ class C11:
                     out.append((name + "=%d" % len(o.vals), False, ["index=size"]))
                     out.append((name + "=-1", False, ["index=-1"]))
                     out.append((name + "=%dx" % idx, False, ["index-garbage"]))
+                    out.append((name + "=''", False, ["index-empty-quoted"]))
+                    out.append((name + "=%d" % (idx + 2 ** 32), False, ["index-wraps"]))
                     out.append((name + "=", False, ["empty-qualifier"]))
             else:
                 out.append((name + "=0", False, ["qualifier-on-single"]))
@@ -231,7 +233,7 @@ class C11:
                 want = t[expect]["p"] if expect is not None else 0
             if got != want:
                 brk = [c for c in cl if c.startswith("broken")] or [c for c in cl if c in ("unknown-title", "unterminated-quote", "dangling-backslash",
-                                                                                              "empty-qualifier", "index=size", "index=-1", "index-garbage",
+                                                                                              "empty-qualifier", "index=size", "index=-1", "index-garbage", "index-empty-quoted", "index-wraps",
                                                                                               "qualifier-on-single")]
                 if want == 0:
                     sig = "resolves-but-should-not/%s/%s" % (kind, (brk or ["?"])[0])
